@@ -258,6 +258,82 @@ def r_ry_sphere(ctx: Ctx, model):
     ctx.floor("RY sphere layer cases", npaths, 3)
 
 
+def r_ry_slit(ctx: Ctx, model):
+    """Rege-Yang slit pore against the equations the method documents:
+      M = (L - d_h)/d_g;  M < 2: eps = n_h A_gh/(2 s^4) [ (s/d0)^10 - (s/d0)^4 - (s/(L-d0))^10 + (s/(L-d0))^4 ]   (sign as coded: the
+      wall terms enter with the same sign convention as the published slit equation);
+      M >= 2: eps_hgg = n_h A_gh/(2 s^4)[(s/d0)^10 - (s/d0)^4] + n_g A_gg/(2 sg^4)[(sg/dg)^10 - (sg/dg)^4],
+              eps_ggg = 2 n_g A_gg/(2 sg^4)[(sg/dg)^10 - (sg/dg)^4],  eps = [2 eps_hgg + (M-2) eps_ggg]/M,
+      s = (2/5)^(1/6) d0, sg = (2/5)^(1/6) d_g, potential = N_A/(RT) eps"""
+    ctx.rule("H-slit(RY) [ALG]: the Rege-Yang slit potential for fewer than two layers and for M >= 2 layers equals the documented equations "
+             "(guest-guest terms scaled with sigma_g = (2/5)^(1/6) d_g, wall terms with sigma = (2/5)^(1/6) d_0)")
+    I = mk(model)
+    patch_constants(I)
+    fi = model.func(f"{PMI}.psd_horvath_kawazoe_ry")
+    captured = {}
+
+    def fake_solver(I, fi_, env, n):
+        captured["fun"] = env["hk_fun"]
+        return [S("Lw0"), S("Lw1"), S("Lw2")]
+    I.overrides[f"{PMI}._solve_hk"] = fake_solver
+    I.overrides[f"{PMI}._solve_hk_cy"] = fake_solver
+    p = Vec([S(f"p{i}") for i in range(3)])
+    nload = Vec([S(f"n{i}") for i in range(3)])
+    T = S("T")
+    a, m = props("a"), {k: v for k, v in props("m").items() if k not in ("liquid_density", "adsorbate_molar_mass")}
+    outs = I.explore(lambda I: I.call_func(fi, [p, nload, T, "slit", dict(a), dict(m)], {}, None))
+    if not outs or outs[0].kind != "ok" or "fun" not in captured:
+        raise AnalysisError(f"psd_horvath_kawazoe_ry(slit) cannot be interpreted: {outs[:1]}")
+    phi_f = captured["fun"]
+    l = S("l")
+    d_g, d_h = a["molecular_diameter"], m["molecular_diameter"]
+    d0 = (d_g + d_h) / 2
+    nm = sp.Rational(1, 10**9)
+    pa, pm_ = a["polarizability"] * sp.Rational(1, 10**27), m["polarizability"] * sp.Rational(1, 10**27)
+    ca, cm = a["magnetic_susceptibility"] * sp.Rational(1, 10**27), m["magnetic_susceptibility"] * sp.Rational(1, 10**27)
+    A_gg = sp.Rational(3, 2) * S("m_e") * S("c_l")**2 * pa * ca
+    A_gh = 6 * S("m_e") * S("c_l")**2 * pa * pm_ / (pa / ca + pm_ / cm)
+    exact_c = sp.Rational(2, 5) ** sp.Rational(1, 6)
+    cands = [exact_c] + sorted({sp.Rational(repr(k_.value)) for k_ in ast.walk(fi.node)
+                                if isinstance(k_, ast.Constant) and isinstance(k_.value, float) and abs(k_.value - float(exact_c)) < 1e-2}, key=float)
+    npaths = 0
+    for oc in I.explore(lambda I: I.call_value(phi_f, [l], {}, None)):
+        if oc.kind != "ok":
+            raise AnalysisError(f"RY slit potential closure cannot be evaluated: {oc}")
+        few = any(c == 0 for lbl, c in oc.decisions if "<" in lbl) or not any(c == 1 for lbl, c in oc.decisions)
+        # which branch: decided by evaluating both documented forms (the fork on M < 2 is a comparison on symbols)
+        phi = oc.value
+        npaths += 1
+        M = (l - d_h) / d_g
+        verdicts = {}
+        for c_ in cands:
+            s_, sg = c_ * d0, c_ * d_g
+            wall = m["surface_density"] * A_gh / (2 * (s_ * nm)**4)
+            gg = a["surface_density"] * A_gg / (2 * (sg * nm)**4) * ((sg / d_g)**10 - (sg / d_g)**4)
+            one = wall * ((s_ / d0)**10 - (s_ / d0)**4 + (s_ / (l - d0))**10 - (s_ / (l - d0))**4)
+            hgg = wall * ((s_ / d0)**10 - (s_ / d0)**4) + gg
+            many = (2 * hgg + (M - 2) * 2 * gg) / M
+            for tag, want in (("M<2", one), ("M>=2", many)):
+                v_, w_ = decide_zero(phi - (S("N_A") / (S("R") * T)) * want,
+                                     symbols_domain={"l": (sp.Rational(5, 2), 3), "d_a": (sp.Rational(3, 10), sp.Rational(35, 100)),
+                                                     "d_m": (sp.Rational(4, 10), sp.Rational(45, 100))})
+                if v_ == "zero":
+                    verdicts[tag] = c_
+        ok = bool(verdicts)
+        ctx.ob(ok, Finding("C17.H-slit", fi.where, f"ry-slit|path={npaths}|potential!=documented-equation",
+                           "a branch of the Rege-Yang slit potential equals neither documented form (eps_hgh for fewer than two layers, "
+                           "[2 eps_hgg + (M-2) eps_ggg]/M otherwise; guest-guest terms with sigma_g = (2/5)^(1/6) d_g, wall terms with sigma = (2/5)^(1/6) d_0)"),
+               nontrivial_key=("ry-slit", npaths))
+        for tag, c_ in verdicts.items():
+            captured.setdefault("seen", set()).add(tag)
+            ctx.ob(abs(float(c_) - float(exact_c)) < 1e-6, Finding("C17.H-slit", fi.where, f"ry-slit|sigma-constant={float(c_):.7f}",
+                                                                  f"sigma = {float(c_)} * d; the zero-energy distance is (2/5)^(1/6) d"), nontrivial_key=("ry-sigma", tag))
+    ctx.ob(captured.get("seen") == {"M<2", "M>=2"}, Finding("C17.H-slit", fi.where, "ry-slit|branches",
+                                                             f"the two layer regimes of the Rege-Yang slit potential were matched as {sorted(captured.get('seen', []))}; "
+                                                             "both the fewer-than-two-layers and the multilayer form are required"), nontrivial_key=("ry-slit", "both"))
+    ctx.floor("RY slit potential paths", npaths, 2)
+
+
 def r_hk_cylinder(ctx: Ctx, model):
     """Saito-Foley cylindrical pore (psd_horvath_kawazoe, geometry 'cylinder'): the terms of the series, for truncations after
     1, 2 and 3 terms, against the documented equation (alpha_k, beta_k by their recurrences, prefactor 3/4 pi N_A/(RT) (n_g A_gg +
@@ -481,6 +557,7 @@ def run(ctx: Ctx):
     ctx.assume("scipy.optimize.minimize_scalar(method='bounded') returns a minimiser of its objective inside the bounds")
     r_slit_and_report(ctx, model)
     r_ry_sphere(ctx, model)
+    r_ry_slit(ctx, model)
     r_hk_cylinder(ctx, model)
     r_solver(ctx, model)
     r_dispatch(ctx, model)
